@@ -305,7 +305,7 @@ ANIaddentry(int32    an_id, /* IN: annotation interface id */
     HEclear();
 
     /* convert an_id i.e. file_id to file rec and check for validity */
-    file_rec = HAatom_object(an_id);
+    file_rec = HIfid2rec(an_id);
     if (BADFREC(file_rec))
         HGOTO_ERROR(DFE_ARGS, FAIL);
 
@@ -431,7 +431,7 @@ ANIcreate_ann_tree(int32    an_id,/* IN: annotation interface id */
     HEclear();
 
     /* convert an_id i.e. file_id to file rec and check for validity */
-    file_rec = HAatom_object(an_id);
+    file_rec = HIfid2rec(an_id);
     if (BADFREC(file_rec))
         HGOTO_ERROR(DFE_ARGS, FAIL);
 
@@ -604,7 +604,7 @@ ANInumann(int32    an_id,  /* IN: annotation interface id */
     HEclear();
 
     /* convert an_id i.e. file_id to file rec and check for validity */
-    file_rec = HAatom_object(an_id);
+    file_rec = HIfid2rec(an_id);
     if (BADFREC(file_rec))
         HGOTO_ERROR(DFE_ARGS, FAIL);
 
@@ -665,7 +665,7 @@ ANIannlist(int32    an_id,  /* IN: annotation interface id */
     HEclear();
 
     /* convert an_id i.e. file_id to file rec and check for validity */
-    file_rec = HAatom_object(an_id);
+    file_rec = HIfid2rec(an_id);
     if (BADFREC(file_rec))
         HGOTO_ERROR(DFE_ARGS, FAIL);
 
@@ -947,7 +947,7 @@ ANIwriteann(int32       ann_id, /* IN: annotation id */
     ann_ref = AN_KEY2REF(ann_key);
 
     /* convert file_id to file rec and check for validity */
-    file_rec = HAatom_object(file_id);
+    file_rec = HIfid2rec(file_id);
     if (BADFREC(file_rec))
         HGOTO_ERROR(DFE_INTERNAL, FAIL);
 
@@ -1143,7 +1143,7 @@ ANstart(int32 file_id /* IN: file to start annotation access on*/)
     HEclear();
 
     /* convert file id to file rec and check for validity */
-    file_rec = HAatom_object(file_id);
+    file_rec = HIfid2rec(file_id);
     if (BADFREC(file_rec))
         HGOTO_ERROR(DFE_ARGS, FAIL);
 
@@ -1188,7 +1188,7 @@ ANfileinfo(int32  an_id,        /* IN:  annotation interface id */
     HEclear();
 
     /* convert an_id i.e. file_id to file rec and check for validity */
-    file_rec = HAatom_object(an_id);
+    file_rec = HIfid2rec(an_id);
     if (BADFREC(file_rec))
         HGOTO_ERROR(DFE_ARGS, FAIL);
 
@@ -1251,7 +1251,7 @@ ANend(int32 an_id /* IN: Annotation ID of file to close */)
     HEclear();
 
     /* convert an_id i.e. file_id to file rec and check for validity */
-    file_rec = HAatom_object(an_id);
+    file_rec = HIfid2rec(an_id);
     if (BADFREC(file_rec))
         HGOTO_ERROR(DFE_ARGS, FAIL);
 
@@ -1450,7 +1450,7 @@ ANselect(int32    an_id, /* IN: annotation interface ID */
     HEclear();
 
     /* convert an_id i.e. file_id to file rec and check for validity */
-    file_rec = HAatom_object(an_id);
+    file_rec = HIfid2rec(an_id);
     if (BADFREC(file_rec))
         HGOTO_ERROR(DFE_ARGS, FAIL);
 
@@ -1690,7 +1690,7 @@ ANget_tagref(int32    an_id, /* IN: annotation interface ID */
     HEclear();
 
     /* convert an_id i.e. file_id to file rec and check for validity */
-    file_rec = HAatom_object(an_id);
+    file_rec = HIfid2rec(an_id);
     if (BADFREC(file_rec))
         HGOTO_ERROR(DFE_ARGS, FAIL);
 
@@ -1836,7 +1836,7 @@ ANtagref2id(int32  an_id,   /* IN  Annotation interface id */
     HEclear();
 
     /* convert an_id i.e. file_id to file rec and check for validity */
-    file_rec = HAatom_object(an_id);
+    file_rec = HIfid2rec(an_id);
     if (BADFREC(file_rec))
         HGOTO_ERROR(DFE_ARGS, FAIL);
 
